@@ -212,10 +212,21 @@ func registerVX() {
 	intrinsics[p+"Choice"] = func(m *Machine, fr *frame, args []Value) Value {
 		label := mustStr(args[0])
 		n := mustInt(args[1])
-		k := m.Choose(n)
+		ul := m.uniqueLabel(sanitize(label))
+		var k int
+		if fx := m.E.Opt.Fixed; fx != nil {
+			if v := fx[ul]; len(v) > 0 {
+				k = int(v[0])
+			}
+			if k >= n {
+				m.abort(abInfeasible, "")
+			}
+		} else {
+			k = m.Choose(n)
+		}
 		t := m.i64(int64(k))
 		// record as an input whose value is fixed on this path
-		m.inputs = append(m.inputs, inputRec{label: m.uniqueLabel(label), kind: "choice", terms: []*smt.Term{t}, w: 64})
+		m.inputs = append(m.inputs, inputRec{label: ul, kind: "choice", terms: []*smt.Term{t}, w: 64})
 		m.tags[label] = t
 		return t
 	}
